@@ -40,6 +40,10 @@ CHECKS = {
    technique="TLA+ spec Galois (group of Galois elements, slot matrix actions, partial traces): TLC exhausts the group laws and the rotate-and-accumulate tree; traces of bgv/ckks rotations, sums and replications with exactly-advertised key sets validated by TLC",
    text="TLC checks composition, inverse, discrete log, periodicity and the order-two element for M in {16..128} and that the log(n)+HW(n) accumulation tree equals the plain sum of rotations for every n<=8; the real bgv (2x8 with gap, 2x16 full ring, no-P) and ckks (full, sparse 8/2/1 slots, conjugate-invariant, no-P) evaluators perform RotateColumns/Rotate (incl. k beyond the slot count, negative, 2^40, 2^62, MaxInt64), RotateRows/Conjugate, RotateHoisted, InnerSum, RotateAndAdd and Replicate for every (batch, n) with n*batch <= slots, each on an evaluator whose key set holds exactly the advertised Galois keys; TLC recomputes every output slot and checks requested keys are a subset of advertised ones.",
    note="Trusted: TLC, the Galois specification, the recording key set, math/big reduction of huge k. Trace() is not covered. On sets without P the keys use a base-two decomposition."),
+ "C12": dict(spec="LinTrans / LinTransMC / LinTransGen / LinTransTrace (extends Galois)", design="DESIGN.md §5 C12",
+   technique="TLA+ spec LinTrans (matrix given by diagonals, baby-step giant-step regrouping, rotation sets): TLC proves the regrouping equals the matrix-vector product for every diagonal set of small dimension, enumerates every 4-slot transformation, and validates recorded bgv/ckks lintrans evaluations",
+   text="TLC checks that the baby-step giant-step regrouping equals the plain matrix-vector product for every set of diagonals over rows of 2, 4 (and 8, thorough) slots, every power-of-two N1 and the N1 chosen by the ratio rule, with rotations inside (0,h); TLC enumerates every set of diagonals with indices in (-4,4) x ratio x level x entry point, the harness adds seeded scenarios on 8- and 16-slot rows (Evaluate, EvaluateNew, EvaluateMany(New) with 2-3 matrices of different levels and ratios, EvaluateSequential(New)); each runs on the real bgv (t=17/97/193, one or two P primes at LevelP 0/1) and ckks (sparse, full, conjugate-invariant) evaluators with a key set holding exactly the advertised Galois elements and a receiver holding unrelated data; TLC recomputes the product from the recorded diagonals and input (exact mod t, exact Gaussian integers for ckks) and checks output level, scale, untouched input and requested-subset-of-advertised keys.",
+   note="Trusted: TLC, the LinTrans/Galois specifications, lattigo's encoder/decryptor as projection. ckks outputs are compared after rounding (1/64). Permutation.GetDiagonals and parameter sets without P are not driven."),
  "C14": dict(spec="MPKeyGen / MPKeyGenGen / MPKeyGenTrace", design="DESIGN.md §5 C14",
    technique="TLA+ spec MPKeyGen (shares as member sets with tags, digest-functional aggregation): TLC enumerates all aggregation schedules; replay on the multiparty protocols; TLC trace validation",
    text="TLC enumerates every aggregation schedule for 3 and 4 parties (all merge orders, operand orders, in-place or fresh outputs, serialisation hops; 5-8 parties by simulation) and checks the share algebra; each schedule is replayed on the real public-key, evaluation-key, Galois-key and two-round relinearisation-key protocols for seven key parameterisations (incl. unequal prime sizes with base-2 digits, two P primes, no P); the trace must show digests that depend only on the member set, refusals of mismatched shares, and a finalised key that works under the ideal secret with bounded noise.",
